@@ -216,6 +216,11 @@ def run(ctx):
     if (not r["ok"]) or ctx.thorough() or not str(wbi).startswith("process: write_bytes"):
         for fp in ([5] if r["ok"] else [5, 4, 6]):
             cases.append(("fault %d %d" % (rng.randrange(1, 2 ** 40), fp), "fault"))
+    # directed scenario: a healing run with skip_if_unchanged (the first index file lost, the parent's root
+    # tree still loadable) re-stores chunks although its tree equals the parent's; the backup after it
+    # (index reloaded) must add nothing.  One case always, three when an obligation is broken.
+    for _ in range(1 if r["ok"] else 3):
+        cases.append(("heal %d" % rng.randrange(1, 2 ** 40), "heal"))
     outs = []
     B = 6
     for i in range(0, len(cases), B):
@@ -243,6 +248,18 @@ def run(ctx):
         if not out.startswith("ok"):
             bad("a backup of the edit script did not complete: " + out[:200], case, -1, out[:400]); continue
         segs = [s.strip() for s in out.split("|")][1:]
+        if segs and segs[0].startswith("HEAL"):
+            h = dict((a, int(b)) for a, b in (x.split("=") for x in segs[0].split()[1:]))
+            hist["heal_scenarios"] = hist.get("heal_scenarios", 0) + 1
+            hist["heal_restored_data_blobs"] = hist.get("heal_restored_data_blobs", 0) + h["heal_data_blobs"]
+            if h["tree3_eq_tree2"] != 1 or h["tree4_eq_tree2"] != 1:
+                bad("re-backup of unchanged data produced a different tree id", case, 3, str(h))
+            if h["last_data_blobs"] != 0 or h["last_tree_blobs"] != 0 or h["last_data_added"] != 0 or h["packs_after_4"] != h["packs_after_3"]:
+                bad("re-backup of unchanged data added data (blobs the previous run had stored were stored again once the index was reloaded)", case, 3, str(h))
+            if h["unindexed_after_3_not_lost"] != 0:
+                bad("a pack written by a backup run is in no index file", case, 2, str(h))
+            # (`clean` is not part of the oracle here: snapshot 1's trees were described by the removed index file)
+            continue
         fault = None
         if segs and segs[0].startswith("FAULT"):
             fault = dict(x.split("=") for x in segs[0].split()[1:])
